@@ -13,7 +13,7 @@
    form is refuted by a concrete schedule and proved outside the finding's class. *)
 From Coq Require Import List Arith Bool.
 From WV Require Import Model.ChanFault Proof.ChanFaultSpec Proof.ChanFaultWorkers Proof.ChanFaultListener
-                       Proof.ChanFaultOnce Proof.ChanFaultWitness.
+                       Proof.ChanFaultOnce Proof.ChanFaultWitness Proof.ChanFaultIso.
 Import ListNotations.
 
 (* the full statements (g ranges over configurations with wc_close g = true, the code as it is, too) *)
@@ -63,6 +63,53 @@ Print Assumptions C13_loop_repaired.
 Theorem C13_once_refuted : ~ C13_once_full.
 Proof. intro H. destruct once_refuted_w as [_ N]. apply N. apply H. Qed.
 Print Assumptions C13_once_refuted.
+
+(* ---- isolation: the unwinding conditions of non-interference between the two connections.
+   What is NOT mechanised: their composition into one statement about two whole runs (the I/O thread
+   serves both connections in turn, so which scheduled choice executes which connection's instruction
+   depends on the state; the step-level facts below are the ingredients of that induction). ---- *)
+
+(* a step that executes an instruction of connection c -- whatever the environment answers: a fault,
+   EOF, anything -- changes nothing of the other connection d (record, worker), nothing of the listener
+   and trigger, and emits no label of d, wire bytes included.  For ALL states. *)
+Theorem C13_isolation_local : forall g s t a s' l c d,
+  next_about s t c -> d <> c -> t <> W d -> step g s (t, a) = Some (s', l) ->
+  getc s' d = getc s d /\ getth s' (W d) = getth s (W d) /\ srv5 s' = srv5 s /\ labels_of d l = [].
+Proof. exact step_local. Qed.
+Print Assumptions C13_isolation_local.
+
+(* two-run: a reachable state and ANY state that agrees with it on connection c and c's worker (the other
+   connection faulted, torn down, absent ...): the worker's step is the same -- enabledness, labels with the
+   wire bytes, the record of c afterwards *)
+Theorem C13_isolation_worker : forall g sched s2 c a,
+  getc (run g sched) c = getc s2 c -> getth (run g sched) (W c) = getth s2 (W c) ->
+  same_step c (step g (run g sched) (W c, a)) (step g s2 (W c, a)).
+Proof. intros. apply worker_two_run; auto. apply wtagged_always. Qed.
+Print Assumptions C13_isolation_worker.
+
+(* two-run: two states whose I/O threads are about to execute the same instruction of connection c and that
+   agree on c: same enabledness, same labels (wire bytes), same record of c afterwards, same instructions pushed *)
+Theorem C13_isolation_io : forall g s1 s2 c a i r1 r2,
+  raising (getth s1 IO) = None -> raising (getth s2 IO) = None ->
+  stk (getth s1 IO) = i :: r1 -> stk (getth s2 IO) = i :: r2 -> about c i = true ->
+  getc s1 c = getc s2 c -> locals (getth s1 IO) = locals (getth s2 IO) ->
+  match step g s1 (IO, a), step g s2 (IO, a) with
+  | Some (s1', l1), Some (s2', l2) =>
+      getc s1' c = getc s2' c /\ l1 = l2 /\ raising (getth s1' IO) = raising (getth s2' IO) /\
+      locals (getth s1' IO) = locals (getth s2' IO) /\
+      exists push, stk (getth s1' IO) = push ++ r1 /\ stk (getth s2' IO) = push ++ r2
+  | None, None => True
+  | _, _ => False
+  end.
+Proof. exact io_two_run. Qed.
+Print Assumptions C13_isolation_io.
+
+(* ... and whether c is asked about in select's lists depends on c only *)
+Theorem C13_isolation_poll : forall g s1 s2 c, getc s1 c = getc s2 c ->
+  mem_fd (FC c) (asked_r g s1) = mem_fd (FC c) (asked_r g s2) /\
+  mem_fd (FC c) (asked_w s1) = mem_fd (FC c) (asked_w s2).
+Proof. exact poll_two_run. Qed.
+Print Assumptions C13_isolation_poll.
 
 (* the two finding classes are independent: the F17 witness has no worker-side send_continue,
    the F18 witnesses have no set-up fault *)
